@@ -71,38 +71,52 @@ def _hook(node, kind, arg):
     w = ACTIVE[0]
     if w is not None:
         w.on_hook(node, kind, arg)
+        return w.hook_ret  # hooks are notifications: whatever they return must not matter
+    return None
 
 
 class _Hooks(object):
     __slots__ = ()
 
     def _pre_detach(self, parent):
-        _hook(self, "pre_detach", parent)
+        return _hook(self, "pre_detach", parent)
 
     def _post_detach(self, parent):
-        _hook(self, "post_detach", parent)
+        return _hook(self, "post_detach", parent)
 
     def _pre_attach(self, parent):
-        _hook(self, "pre_attach", parent)
+        return _hook(self, "pre_attach", parent)
 
     def _post_attach(self, parent):
-        _hook(self, "post_attach", parent)
+        return _hook(self, "post_attach", parent)
 
     def _pre_detach_children(self, children):
-        _hook(self, "pre_detach_children", children)
+        return _hook(self, "pre_detach_children", children)
 
     def _post_detach_children(self, children):
-        _hook(self, "post_detach_children", children)
+        return _hook(self, "post_detach_children", children)
 
     def _pre_attach_children(self, children):
-        _hook(self, "pre_attach_children", children)
+        return _hook(self, "pre_attach_children", children)
 
     def _post_attach_children(self, children):
-        _hook(self, "post_attach_children", children)
+        return _hook(self, "post_attach_children", children)
 
 
 class HNode(_Hooks, Node):
     pass
+
+
+class HNodeInst(Node):
+    """A plain Node class: its hooks are given to each *instance* as attributes
+    (e.g. Node("n", _post_attach=callback)), not overridden in the class."""
+
+
+def _instance_hooks(obj):
+    import functools
+
+    for kind in ALL_HOOKS:
+        obj.__dict__["_" + kind] = functools.partial(_hook, obj, kind)
 
 
 class HAny(_Hooks, AnyNode):
@@ -276,6 +290,32 @@ class HLightBag(_Bag, HLight):
         return "HLightBag(%r)" % (self.name,)
 
 
+class HLightStr(HLight):
+    """`__slots__` given as a single string (legal Python: one slot of that name)."""
+
+    __slots__ = "label"
+
+    def __init__(self, name, parent=None, children=None, **kwargs):
+        self.label = "l-" + str(name)
+        HLight.__init__(self, name, parent=parent, children=children, **kwargs)
+
+    def __repr__(self):
+        return "HLightStr(%r)" % (self.name,)
+
+
+class HMixSlot(HMix):
+    """A dict-based NodeMixin class that keeps part of its data in a slot."""
+
+    __slots__ = ("extra",)
+
+    def __init__(self, name, parent=None, children=None, **kwargs):
+        self.extra = "x-" + str(name)
+        HMix.__init__(self, name, parent=parent, children=children, **kwargs)
+
+    def __repr__(self):
+        return "HMixSlot(%r)" % (self.name,)
+
+
 class HLightSub(HLight):
     """A second level of __slots__ (C19: every level's slots must survive a copy)."""
 
@@ -290,6 +330,9 @@ class HLightSub(HLight):
 
 
 CLASSES = {
+    "HLightStr": HLightStr,
+    "HMixSlot": HMixSlot,
+    "HNodeInst": HNodeInst,
     "HSymProp": HSymProp,
     "HNodeNo": HNodeNo,
     "HLightNo": HLightNo,
@@ -308,6 +351,9 @@ CLASSES = {
     "HLightDict": HLightDict,
 }
 FAMILY = {
+    "HLightStr": "light",
+    "HMixSlot": "node",
+    "HNodeInst": "node",
     "HSymProp": "node",
     "HNodeNo": "node",
     "HLightNo": "light",
@@ -356,6 +402,8 @@ def make_node(clsname, name, attrs=None, target=None, parent=None, children=None
     obj = cls.__new__(cls)
     if register is not None:
         register(obj)
+    if cls is HNodeInst:
+        _instance_hooks(obj)
     attrs = attrs or {}
     base = getattr(cls, "_sim_base", cls.__name__)
     if base in ("HSym",):
@@ -416,6 +464,7 @@ class World(object):
         self._idx = {}
         self.observe_hooks = observe_hooks
         self.hook_reads = ()
+        self.hook_ret = None
         self.plan = FaultPlan(None)
         self.hooklog = []
         self.fired = []
